@@ -545,6 +545,33 @@ let pq_family (dir : string) =
   close_out oc
 
 
+(* ---------------- family "wg" ---------------- *)
+(* bar_wait_group.go: after every call, the waiters that have returned once the notified ones have run (sorted) *)
+let wg_family (dir : string) =
+  let lines = read_lines (Filename.concat dir "cases.txt") in
+  let oc = open_out (Filename.concat dir "model.txt") in
+  let k = ref 0 and ops = ref [] in
+  let flush_case () =
+    let obs = wg_observe wg_init (List.rev !ops) in
+    List.iteri (fun step ret ->
+      let ids = List.sort compare (List.map (fun z -> int_of_string (zs z)) ret) in
+      let buf = Buffer.create 64 in
+      Buffer.add_string buf (Printf.sprintf "%d %d ret=" !k step);
+      List.iter (fun i -> Buffer.add_string buf (string_of_int i ^ ",")) ids;
+      Printf.fprintf oc "%s\n" (Buffer.contents buf)) obs;
+    ops := [] in
+  List.iter (fun line ->
+    match tokens line with
+    | ["case"; kk] -> k := int_of_string kk; ops := []
+    | ["o"; "add"; d] -> ops := WAdd (cz d) :: !ops
+    | ["o"; "done"] -> ops := WAdd (cz "-1") :: !ops
+    | ["o"; "wait"; t] -> ops := WWait (cz t) :: !ops
+    | ["end"] -> flush_case ()
+    | [] -> ()
+    | _ -> failwith ("bad line: " ^ line)) lines;
+  close_out oc
+
+
 (* ---------------- family "pty" ---------------- *)
 (* the bytes a pseudo terminal received, read by the proved lexer (Vt.lex) and applied to a screen of the
    terminal's height (Vt.tok_step); prints the lines left on the terminal (scrollback included), top first *)
@@ -581,5 +608,6 @@ let () =
   | [_; "fmt"; dir] -> fmt_family dir
   | [_; "conc"; dir] -> conc_family dir
   | [_; "pq"; dir] -> pq_family dir
+  | [_; "wg"; dir] -> wg_family dir
   | [_; "pty"; dir] -> pty_family dir
   | _ -> prerr_endline "usage: mpbmodel <family> <dir>"; exit 2
